@@ -127,14 +127,14 @@ namespace Discrete
 
 /-- transport of parameters along a bijection σ (inverse σ') -/
 def relabel (σ σ' : Node → Node) (P : DParams) : DParams :=
-  { nodes := P.nodes.map σ, nbrs := fun a => (P.nbrs (σ' a)).map σ, rule := fun a b => P.rule (σ' a) (σ' b),
+  { nodes := P.nodes.map σ, nbrs := fun a => (P.nbrs (σ' a)).map σ, rule := fun a x y => P.rule a (σ' x) (σ' y),
     recSteps := P.recSteps.map fun k a => k (σ' a), tmin := P.tmin, tmax := P.tmax }
 
 /-- the contact test `u → v` commutes with relabelling -/
-theorem contact_relabel (σ σ' : Node → Node) (hl : ∀ i, σ' (σ i) = i) (P : DParams) (u v : Node) :
-    (((relabel σ σ' P).nbrs (σ u)).contains (σ v) && (relabel σ σ' P).rule (σ u) (σ v)) =
-    ((P.nbrs u).contains v && P.rule u v) := by
-  show (((P.nbrs (σ' (σ u))).map σ).contains (σ v) && P.rule (σ' (σ u)) (σ' (σ v))) = _
+theorem contact_relabel (σ σ' : Node → Node) (hl : ∀ i, σ' (σ i) = i) (P : DParams) (a : Nat) (u v : Node) :
+    (((relabel σ σ' P).nbrs (σ u)).contains (σ v) && (relabel σ σ' P).rule a (σ u) (σ v)) =
+    ((P.nbrs u).contains v && P.rule a u v) := by
+  show (((P.nbrs (σ' (σ u))).map σ).contains (σ v) && P.rule a (σ' (σ u)) (σ' (σ v))) = _
   rw [hl, hl, Relabel.contains_map hl]
 
 theorem ball_relabel' (σ σ' : Node → Node) (hl : ∀ i, σ' (σ i) = i)
@@ -163,7 +163,7 @@ theorem bfs_relabel' (σ σ' : Node → Node) (hl : ∀ i, σ' (σ i) = i)
 
 /-! the components of one generation -/
 def newInfRl (P : DParams) (s : DState) : List Node :=
-  P.nodes.filter fun v => s.sus v && s.inf.any fun u => (P.nbrs u).contains v && P.rule u v
+  P.nodes.filter fun v => s.sus v && s.inf.any fun u => (P.nbrs u).contains v && P.rule (s.age u) u v
 def stayRl (P : DParams) (s : DState) : List Node :=
   match P.recSteps with
   | none => []
@@ -200,7 +200,7 @@ def relabelSt (σ σ' : Node → Node) (s : DState) : DState :=
 theorem newInf_relabel (σ σ' : Node → Node) (hl : ∀ i, σ' (σ i) = i) (P : DParams) (s : DState) :
     newInfRl (relabel σ σ' P) (relabelSt σ σ' s) = (newInfRl P s).map σ := by
   show ((P.nodes.map σ).filter fun v => s.sus (σ' v) && (s.inf.map σ).any fun u =>
-    ((relabel σ σ' P).nbrs u).contains v && (relabel σ σ' P).rule u v) = _
+    ((relabel σ σ' P).nbrs u).contains v && (relabel σ σ' P).rule (s.age (σ' u)) u v) = _
   rw [Relabel.filter_map]
   simp only [Relabel.any_map, contact_relabel σ σ' hl, hl]
   rfl
